@@ -1,6 +1,7 @@
 (* C14 — JPEG-LS against T.87. Property theorems only. *)
 From V Require Import Common.Base JpegLS.JlsParams JpegLS.JlsGolomb JpegLS.JlsRun JpegLS.JlsModel JpegLS.JlsT87Dec.
 From V Require Import JpegLS.JlsProofsParams JpegLS.JlsProofsGolomb JpegLS.JlsProofsSample JpegLS.JlsProofsNear0
+                      JpegLS.JlsProofsRun JpegLS.JlsProofsInterrupt
                       JpegLS.JlsProofsLine JpegLS.JlsProofsStream JpegLS.JlsProofsT87 JpegLS.JlsProofsTotal.
 
 (* the coded parameter function equals the standard's formulas (A.2.1, C.2.4.1.1) on the whole
@@ -34,7 +35,8 @@ Print Assumptions C14_near0_same_bytes.
 
 (* each decoder decodes the other package's (NEAR = 0) streams to the source *)
 Theorem C14_cross_near_decodes_lossless : forall w h comps P pixelData stream lim,
-  w <= 65535 -> h <= 65535 -> w * h * comps <= lim ->
+  w * h * comps <= lim ->
+  zlen (pixelsToIntegers P pixelData) = w * h * comps ->
   Forall (in_range P) (pixelsToIntegers P pixelData) ->
   jls_encode w h comps P pixelData = Ok stream ->
   jlsn_decode lim stream =
@@ -43,7 +45,8 @@ Proof. exact cross_decode_near_of_lossless. Qed.
 Print Assumptions C14_cross_near_decodes_lossless.
 
 Theorem C14_cross_lossless_decodes_near0 : forall w h comps P pixelData stream lim,
-  w <= 65535 -> h <= 65535 -> w * h * comps <= lim ->
+  w * h * comps <= lim ->
+  zlen (pixelsToIntegers P pixelData) = w * h * comps ->
   Forall (in_range P) (pixelsToIntegers P pixelData) ->
   jlsn_encode w h comps P 0 pixelData = Ok stream ->
   jls_decode lim stream =
@@ -95,6 +98,53 @@ Theorem C14_T87dec_H3 :
   end.
 Proof. exact t87_agrees_H3. Qed.
 Print Assumptions C14_T87dec_H3.
+
+(* the T.87 decoder on the bits the coded encoder wrote, symbol level, all parameters *)
+Theorem C14_T87dec_golomb : forall k m limit qbpp rest,
+  0 <= k <= 32 -> 0 <= qbpp <= 32 -> qbpp + 1 < limit <= 64 -> 0 <= m ->
+  (limit - (qbpp + 1) <= Z.shiftr m k -> m - 1 < 2 ^ qbpp) ->
+  t87_golomb k limit qbpp (ops_bits (encode_mapped_ops k m limit qbpp) ++ rest) = Some (m, rest).
+Proof. exact t87_golomb_roundtrip. Qed.
+Print Assumptions C14_T87dec_golomb.
+
+Theorem C14_T87dec_regular : forall P near c t st ra rb rc rd x rest ops c' stored,
+  2 <= P <= 16 -> 0 <= near <= near_max P -> 0 <= x <= 2 ^ P - 1 ->
+  context_qs (jls_params P near) ra rb rc rd <> 0 ->
+  nth (Z.to_nat (Z.abs (context_qs (jls_params P near) ra rb rc rd))) (ts_ctx st) (mkT87Ctx 0 0 0 0) = t ->
+  ctx_rel t c ->
+  1 <= cN c -> 0 <= cA c <= cN c * 65536 -> cA c < 8388608 -> Z.abs (cB c) < 8388608 ->
+  regular_enc PkNear true (jls_params P near) c (context_qs (jls_params P near) ra rb rc rd) ra rb rc x = (ops, c', stored) ->
+  exists t',
+    t87_regular (jls_params P near) st ra rb rc rd (ops_bits ops ++ rest) =
+      Some (stored, mkT87St (t87_set (Z.to_nat (Z.abs (context_qs (jls_params P near) ra rb rc rd))) (ts_ctx st) t')
+                            (ts_r365 st) (ts_r366 st) (ts_runindex st), rest) /\
+    ctx_rel t' c'.
+Proof. exact t87_regular_roundtrip. Qed.
+Print Assumptions C14_T87dec_regular.
+
+Theorem C14_T87dec_run_length : forall fuel n remaining ri rest ops ri',
+  0 <= ri <= 31 -> 0 <= n <= remaining -> 1 <= remaining ->
+  EncodeRunLength fuel n (n =? remaining) ri = Some (ops, ri') ->
+  t87_run_length (ops_bits ops ++ rest) remaining 0 ri = Some (n, (n =? remaining), ri', rest).
+Proof. exact t87_run_length_roundtrip. Qed.
+Print Assumptions C14_T87dec_run_length.
+
+Theorem C14_T87dec_interruption : forall P near st c e ra rb rest,
+  2 <= P <= 16 -> 0 <= near <= near_max P ->
+  rc_type c = 0 \/ rc_type c = 1 ->
+  run_rel (if rc_type c =? 0 then ts_r365 st else ts_r366 st) c -> runctx_ok c -> 0 <= ts_runindex st <= 31 ->
+  (rc_type c = 1 -> e <> 0) -> 2 * Z.abs e <= jp_range (jls_params P near) ->
+  0 <= (if rc_type c =? 1 then ra else rb) <= 2 ^ P - 1 ->
+  exists u',
+    t87_interruption (jls_params P near) st (rc_type c) ra rb
+      (ops_bits (fst (EncodeRunInterruption (jls_params P near) (ts_runindex st) c e)) ++ rest) =
+    Some (ComputeReconstructedSample (jls_params P near) (if rc_type c =? 1 then ra else rb)
+            ((if (rc_type c =? 0) && (ra >? rb) then -1 else 1) * e),
+          (if rc_type c =? 0 then mkT87St (ts_ctx st) u' (ts_r366 st) (ts_runindex st)
+           else mkT87St (ts_ctx st) (ts_r365 st) u' (ts_runindex st)), rest) /\
+    run_rel u' (snd (EncodeRunInterruption (jls_params P near) (ts_runindex st) c e)).
+Proof. exact t87_interruption_roundtrip. Qed.
+Print Assumptions C14_T87dec_interruption.
 
 (* non-vacuity *)
 Example C14_nonvacuous_params : 2 <= 8 <= 16 /\ 0 <= 34 <= near_max 8 /\ jp_t3 (jls_params 8 34) = 177.
